@@ -492,6 +492,11 @@ def filter_sets(tier, model):
     sets.append((("f002", "ign"), ("outer$", "ign::ig$"), False))
     sets.append((("srt",), ("B_group", "^zoo$"), False))
     sets.append(((), tuple(INNER_ONLY), False))
+    # inline flags and comments belong to their own pattern only
+    sets.append((("(?i)IGN", "A_"), (), False))
+    sets.append(((), ("(?i)IGN", "A_"), False))
+    sets.append((("(?x) ign # the ignore family", "g_t"), (), False))
+    sets.append((("(?i)SRT",), ("(?i)ARGS_", "B1"), False))
     for f in alpha:
         sets.append(((f,), (), False))
         sets.append(((), (f,), False))
@@ -1447,6 +1452,9 @@ RUNNER_SOURCES = [
     ("env skip_ext_time", ["--sample-size", "1"], {"DIVAN_SKIP_EXT_TIME": "true"}, None, {"skip_ext": True, "sample_size": 1}),
     ("builder skip_ext_time", ["--sample-size", "1"], {}, "from_args;skip_ext_time=true;main", {"skip_ext": True, "sample_size": 1}),
     ("cli max_time tuned", ["--max-time", "0.0000000304"], {}, None, {"max_time_ps": 30000}),
+    ("builder before the arguments", [], {}, "default;sample_count=7;sample_size=2;config_with_args;main", {"sample_count": 7, "sample_size": 2}),
+    ("builder before the arguments, another flag given", ["--sample-count", "4"], {}, "default;sample_size=3;max_time_ns=6;config_with_args;main", {"sample_count": 4, "sample_size": 3, "max_time_ps": 6000}),
+    ("builder times before the arguments", ["--sample-size", "1"], {}, "default;min_time_ns=7;max_time_ns=9;skip_ext_time=true;threads=1;items_count=3;config_with_args;main", {"sample_size": 1, "min_time_ps": 7000, "max_time_ps": 9000, "skip_ext": True, "threads": [1], "items": 3}),
     ("cli items alone", ["--items-count", "5"], {}, None, {"items": 5}),
     ("env bytes alone", [], {"DIVAN_BYTES_COUNT": "77"}, None, {"bytes": 77}),
     ("builder cycles alone", [], {}, "from_args;cycles_count=4;main", {"cycles": 4}),
